@@ -193,6 +193,10 @@ def judge_c16(s, r):
                     return "the directory %s was created and nothing was written into it" % p
                 continue
             return "path outside the intended set was touched: %s: %s -> %s" % (p, None if b is None else (b[0], oct(b[1])), None if a is None else (a[0], oct(a[1]), a[2][:40]))
+    if s.get("exact") and r["exit"] == 0:
+        bn = s["exact"] + ".orig"
+        if after.get(bn) != (before[bn][0], before[bn][1], before[bn][2]):
+            return "%s applies exactly and no -b was given: the file at its backup name %s was replaced" % (s["exact"], bn)
     if r["tmp_left"]:
         return "temporary files left in TMPDIR: %s" % r["tmp_left"]
     leftovers = [p for p in after if re.search(r"patch-[0-9A-Za-z]{6}$", p)]
@@ -813,6 +817,32 @@ def run(prop, tier, seed):
                 # would take the directory with it): nothing at all may be touched
                 kinds_ = rng.choice([["rename"], ["rename", "delete"], ["copy", "add"], ["delete"], ["rename", "change"]])
                 scns.append(add_bystanders(rng, scen.gen_scenario(rng, nsec=len(kinds_), kinds=kinds_, opts=dict(rng.choice([{"dry": 1}, {"dry": 1, "b": 1}, {"dry": 1, "E": 1}])), drift=0)))
+            for _ in range(n // 8):
+                # -R of a git rename with several hunks on the tree that holds the new name, the place of its last hunk spoiled:
+                # the rejects belong at the name that is written (the old name), nowhere else
+                while True:
+                    sec = scen.section(rng, rng.choice(["rr", "rrd/rr"]), kind="rename", fmt="git", width=rng.choice([1, 2]), nonl=False)
+                    if len(sec["hs"]) >= 2:
+                        break
+                s0 = scen.base_scenario(rng, [sec], opts={"R": 1, "f": 1})
+                tr = {p_: v_ for p_, v_ in s0["tree"].items() if p_ != sec["path"]}
+                bl = [t_.encode("latin-1") for t_, nl_ in sec["b"]]
+                h_ = sec["hs"][-1]
+                for j_ in range(h_["ns"] - 1, min(len(bl), h_["ns"] - 1 + max(1, h_["nc"]))):
+                    bl[j_] = b"spoiled " + bl[j_]
+                scen.add_parents(tr, sec["newpath"]); tr[sec["newpath"]] = ("R", 0o644, b"".join(l_ + b"\n" for l_ in bl))
+                s0["tree"] = tr
+                scns.append(add_bystanders(rng, s0))
+            for _ in range(n // 8):
+                # a git stream over several files of which only one applies imperfectly (no -b): the files that apply exactly get
+                # no backup, and a file that already stands at their backup name is left alone
+                secs_ = [scen.section(rng, p_, kind="change", fmt="git", width=3, nonl=False) for p_ in rng.sample(["ga", "gd/gb", "gc"], 2)]
+                s0 = scen.base_scenario(rng, secs_, opts={})
+                k_, m_, d_ = s0["tree"][secs_[0]["path"]]
+                s0["tree"][secs_[0]["path"]] = (k_, m_, b"drift 1\ndrift 2\n" + d_)
+                s0["tree"][secs_[1]["path"] + ".orig"] = ("R", 0o644, b"kept from an earlier run\n")
+                s0["exact"] = secs_[1]["path"]
+                scns.append(s0)
             for _ in range(n // 5):
                 # the file to patch is named on the command line; a file with the name the headers carry stands by
                 kind = rng.choice(["change", "change", "rename", "delete", "copy"])
